@@ -4,6 +4,7 @@ package c10
 import (
 	"fmt"
 	"math/rand"
+	"strings"
 	"sync"
 
 	"deps.dev/util/pypi"
@@ -26,14 +27,14 @@ type sysgen struct {
 
 func systems() []sysgen {
 	return []sysgen{
-		{"Default", semver.DefaultSystem, gen.Loose},
-		{"Cargo", semver.Cargo, gen.SemVerStrict("")},
+		{"Default", semver.DefaultSystem, gen.Wild(gen.Loose)},
+		{"Cargo", semver.Cargo, gen.Wild(gen.SemVerStrict(""))},
 		{"Go", semver.Go, gen.SemVerStrict("v")},
 		{"Maven", semver.Maven, gen.MavenLoose},
-		{"NPM", semver.NPM, gen.Loose},
-		{"NuGet", semver.NuGet, gen.NuGet},
+		{"NPM", semver.NPM, gen.Wild(gen.Loose)},
+		{"NuGet", semver.NuGet, gen.Wild(gen.NuGet)},
 		{"PyPI", semver.PyPI, gen.PyPI},
-		{"Composer", semver.Composer, gen.Loose},
+		{"Composer", semver.Composer, gen.Wild(gen.Loose)},
 		{"RubyGems", semver.RubyGems, gen.GemRelease},
 	}
 }
@@ -41,7 +42,7 @@ func systems() []sysgen {
 func Run(r *ev.Run, replay string) {
 	r.MaxSamples = 10
 	r.Rule = "per system: N generated version strings (plus respelled variants) accepted by Parse; for each v: c=Canon(true) must parse, compare equal to v and canonicalise to c again (same for Canon(false)); versions grouped by canonical string must compare equal pairwise; PyPI additionally through pypi.CanonVersion. Non-trivial = distinct version string whose canonical string differs from its text."
-	r.Assumptions = []string{"RubyGems is release-only (prerelease canonical forms are documented as private; recorded in the property)", "Maven uses the full permissive generator (the statement does not restrict Maven here)", "wildcard patterns such as 1.x (accepted by Parse for use in constraints) are not versions and are skipped"}
+	r.Assumptions = []string{"RubyGems is release-only (prerelease canonical forms are documented as private; recorded in the property)", "Maven uses the full permissive generator (the statement does not restrict Maven here)"}
 	if replay != "" {
 		var c struct {
 			Case Case `json:"case"`
@@ -132,8 +133,7 @@ func one(r *ev.Run, sg sysgen, s string, groups map[string][]string) (parsed boo
 		return false
 	}
 	if v.IsWildcard() {
-		// "1.x" parses, but it is a pattern for constraints, not a version.
-		return false
+		r.Count("wildcard_versions:"+sg.name, 1)
 	}
 	r.Count("versions:"+sg.name, 1)
 	for _, showBuild := range []bool{true, false} {
@@ -149,7 +149,11 @@ func one(r *ev.Run, sg sysgen, s string, groups map[string][]string) (parsed boo
 			continue
 		}
 		if cmp := v.Compare(w); cmp != 0 {
-			r.Violation("C10:"+sg.name+":"+mode+":not-equal", fmt.Sprintf("%s: %q and its canonical string %q compare %d", sg.name, s, c, cmp), Case{Sys: sg.name, V: s})
+			class := "C10:" + sg.name + ":" + mode + ":not-equal"
+			if wildcardMetadataOnly(sg, s, v) {
+				class = "C10:" + sg.name + ":wildcard-metadata:not-equal"
+			}
+			r.Violation(class, fmt.Sprintf("%s: %q and its canonical string %q compare %d", sg.name, s, c, cmp), Case{Sys: sg.name, V: s})
 		}
 		if c2 := w.Canon(showBuild); c2 != c {
 			r.Violation("C10:"+sg.name+":"+mode+":not-idempotent", fmt.Sprintf("%s: %q -> %q -> %q", sg.name, s, c, c2), Case{Sys: sg.name, V: s})
@@ -183,6 +187,27 @@ func one(r *ev.Run, sg sysgen, s string, groups map[string][]string) (parsed boo
 	return true
 }
 
+// wildcardMetadataOnly reports whether s is a wildcard pattern carrying a
+// prerelease or build metadata whose failure goes away with that metadata:
+// the pattern cut before its first '-' or '+' parses, and compares equal to
+// its own canonical string. (Canon documents the metadata of a pattern as
+// irrelevant and drops it; Compare looks at it: an open finding.)
+func wildcardMetadataOnly(sg sysgen, s string, v *semver.Version) bool {
+	if !v.IsWildcard() {
+		return false
+	}
+	i := strings.IndexAny(s, "-+")
+	if i <= 0 {
+		return false
+	}
+	b, err := sg.sys.Parse(s[:i])
+	if err != nil || !b.IsWildcard() {
+		return false
+	}
+	w, err := sg.sys.Parse(b.Canon(true))
+	return err == nil && b.Compare(w) == 0 && v.Canon(true) == b.Canon(true)
+}
+
 func sameCanon(r *ev.Run, sg sysgen, groups map[string][]string) {
 	for c, ss := range groups {
 		if len(ss) < 2 {
@@ -200,7 +225,11 @@ func sameCanon(r *ev.Run, sg sysgen, groups map[string][]string) {
 			}
 			r.Eval(1)
 			if v.Compare(v0) != 0 {
-				r.Violation("C10:"+sg.name+":same-canon-differ", fmt.Sprintf("%s: %q and %q share the canonical string %q but compare %d", sg.name, s, ss[0], c, v.Compare(v0)), Case{Sys: sg.name, V: s, W: ss[0]})
+				class := "C10:" + sg.name + ":same-canon-differ"
+				if wildcardMetadataOnly(sg, s, v) || wildcardMetadataOnly(sg, ss[0], v0) {
+					class = "C10:" + sg.name + ":wildcard-metadata:same-canon-differ"
+				}
+				r.Violation(class, fmt.Sprintf("%s: %q and %q share the canonical string %q but compare %d", sg.name, s, ss[0], c, v.Compare(v0)), Case{Sys: sg.name, V: s, W: ss[0]})
 				break
 			}
 		}
